@@ -473,6 +473,16 @@ pub fn run(run: &mut Run) {
         (0u8..4, prop_oneof![8 => 0u16..4096, 1 => Just(4095u16), 1 => 4096u16..], canon_va()),
         pcid_case,
     );
+    crate::props::c02::known_findings(run);
+    let n = run.cases(12_000, 400_000);
+    let max_ops = if run.tier == crate::engine::Tier::Quick { 32 } else { 96 };
+    run.sub(
+        "mapper_tokens",
+        "the C01 call histories on all three mapper implementations: every successful map / unmap / update_flags returns a flush token whose page() is exactly the argument page (parent-entry changes return the flush-all token, whose flush is checked in flush_all)",
+        n,
+        crate::props::mapper::map_case([10, 2, 6, 5, 2, 1, 1, 1, 1], max_ops),
+        |c, obs| crate::props::mapper::run_case(c, crate::props::mapper::T_C11, obs),
+    );
     let n = run.cases(40_000, 1_600_000);
     run.sub(
         "broadcast",
